@@ -36,9 +36,9 @@ namespace ref4648
     }
 
     // RFC 4648 section 4: standard alphabet, '=' padding, no line feeds
-    inline bytes encode(const bytes& in)
+    inline void encode(const bytes& in, bytes& out)
     {
-        bytes out;
+        out.clear();
         out.reserve(4 * ((in.size() + 2) / 3));
         std::size_t n = in.size(), i = 0;
         for (; i + 3 <= n; i += 3)
@@ -65,8 +65,8 @@ namespace ref4648
             out.push_back(char_of((b1 & 15u) << 2));
             out.push_back('=');
         }
-        return out;
     }
+    inline bytes encode(const bytes& in) { bytes out; encode(in, out); return out; }
 
     // length of the longest leading run of alphabet characters
     inline std::size_t leading_run(const bytes& in)
@@ -79,11 +79,11 @@ namespace ref4648
     // The decode of the property statement: take the longest leading run of alphabet characters (k of them), read it
     // as a stream of 6k bits, return the floor(6k/8) whole bytes it contains; everything from the first other byte on
     // (padding, whitespace, NUL, any byte >= 0x80, ...) is ignored.
-    inline bytes spec_decode(const bytes& in)
+    inline void spec_decode(const bytes& in, bytes& out)
     {
         std::size_t k = leading_run(in);
         std::size_t nbytes = (6 * k) / 8;
-        bytes out;
+        out.clear();
         out.reserve(nbytes);
         for (std::size_t j = 0; j < nbytes; ++j)
         {
@@ -96,8 +96,8 @@ namespace ref4648
             }
             out.push_back(static_cast<unsigned char>(v));
         }
-        return out;
     }
+    inline bytes spec_decode(const bytes& in) { bytes out; spec_decode(in, out); return out; }
 }
 
 #endif
